@@ -430,7 +430,11 @@ def replay(data):
     job = data["job"]
     c = unq(data["cex"]) or {}
     if c.get("kind") == "exc":
-        return True, c["exc"]
+        try:
+            ok, msg = replay(dict(data, cex=dict(kind="model"), obligation="override-takes-effect" if job["kind"] == "overrides" else "restored-values[values[0]]"))
+            return ok, "no exception with the real Orbax; " + msg
+        except Exception as ex:
+            return True, f"real run raised {type(ex).__name__}: {ex}"
     ob = Obligations(job)
     if job["kind"] in ("real", "errors"):
         run_job(job)
